@@ -17,6 +17,8 @@ import (
 type Clause struct {
 	Local bool
 	Internal bool
+	HasUses bool
+	Uses []string
 	Name  string
 	Props []string
 	Expr  *SExpr
@@ -53,6 +55,7 @@ type FuncContract struct {
 	Ghost      []*GhostAssign
 	Trusts     []*Clause
 	Yields     []*Clause
+	Hints      []ObligHint
 	Exhausts   []*Clause
 }
 
@@ -110,9 +113,17 @@ func newContracts() *Contracts {
 }
 
 var reHeader = regexp.MustCompile(`^func\s*(\(\s*(\w+)?\s*(\*?)\s*([\w.]+)\s*\))?\s*([\w$.]+)\s*(\((.*)\))?`)
-var reClauseName = regexp.MustCompile(`^#([\w.$@-]+)\s*(\[([^\]]*)\])?\s*(local|internal)?\s*:\s*`)
+var reClauseName = regexp.MustCompile(`^#([\w.$@-]+)\s*(\[([^\]]*)\])?\s*(local|internal)?\s*(uses\(([^)]*)\))?\s*:\s*`)
 
-var subKeywords = map[string]bool{"props": true, "requires": true, "ensures": true, "modifies": true, "loop": true, "inline": true, "trusted": true, "flag": true, "pure": true, "ghost": true, "trusts": true, "yields": true, "exhausts": true}
+var reHint = regexp.MustCompile(`^(\S+)\s+uses\(([^)]*)\)\s*$`)
+
+// ObligHint: a uses() whitelist for obligations whose name matches Pat.
+type ObligHint struct {
+	Pat  *regexp.Regexp
+	Uses []string
+}
+
+var subKeywords = map[string]bool{"hint": true, "props": true, "requires": true, "ensures": true, "modifies": true, "loop": true, "inline": true, "trusted": true, "flag": true, "pure": true, "ghost": true, "trusts": true, "yields": true, "exhausts": true}
 
 // GhostAssign: `ghost x.f := expr` — ghost update performed at function exit (ghost state is never read by
 // executable code, so deferring all ghost updates to the exit is equivalent to performing them in place).
@@ -323,6 +334,24 @@ func (cs *Contracts) loadFile(path string, pkgPath string, isExternFile bool) er
 				return fail(l, "ghost assignment target must be a ghost field x.f")
 			}
 			cur.Ghost = append(cur.Ghost, &GhostAssign{Target: te, Value: ve, Src: rest, File: l.file, Line: l.line})
+		case "hint":
+			// hint <obligation-name regexp> uses(a, b, ...): proof-slicing hint for obligations of this function
+			// that do not stem from one of its own clauses (call-site preconditions, safety checks)
+			m := reHint.FindStringSubmatch(rest)
+			if m == nil {
+				return fail(l, "hint <regexp> uses(a, b, ...)")
+			}
+			re, err := regexp.Compile(m[1])
+			if err != nil {
+				return fail(l, "%v", err)
+			}
+			h := ObligHint{Pat: re}
+			for _, u := range strings.Split(m[2], ",") {
+				if u = strings.TrimPrefix(strings.TrimSpace(u), "#"); u != "" {
+					h.Uses = append(h.Uses, u)
+				}
+			}
+			cur.Hints = append(cur.Hints, h)
 		case "inline":
 			cur.Inline = true
 		case "trusted":
@@ -417,6 +446,16 @@ func parseClause(s string, l rawLine) (*Clause, error) {
 	// `internal`: checked at every exit of the body and may mention the function's local variables (their
 	// values at that exit); never assumed at call sites
 	c.Internal = m[4] == "internal"
+	// uses(a, b): when this clause is proved as a loop invariant at a back edge, only the named invariants of the
+	// same loop are assumed at the loop head (plus everything that is not a loop invariant): a proof-slicing hint
+	if m[5] != "" {
+		c.HasUses = true
+		for _, u := range strings.Split(m[6], ",") {
+			if u = strings.TrimPrefix(strings.TrimSpace(u), "#"); u != "" {
+				c.Uses = append(c.Uses, u)
+			}
+		}
+	}
 	c.Src = strings.TrimSpace(s[len(m[0]):])
 	e, err := parseSpecExpr(c.Src)
 	if err != nil {
